@@ -419,6 +419,7 @@ pub fn run_suite(suite: &str, props: &BTreeSet<String>, tier: &str, seed: u64, s
     let mut failures: Vec<Value> = vec![];
     let mut engine_errors: Vec<Value> = vec![];
     let mut samples: Vec<Value> = vec![];
+    let mut digests: serde_json::Map<String, Value> = serde_json::Map::new();
     let max_paths = if tier == "thorough" { 4000 } else { 1500 };
     for (i, c) in all.iter().enumerate() {
         if i % sn != si {
@@ -431,6 +432,18 @@ pub fn run_suite(suite: &str, props: &BTreeSet<String>, tier: &str, seed: u64, s
         }
         n_cases += 1;
         let runs = symcore::explore(max_paths, || (c.run)(&filter, miniwasm));
+        if std::env::var("SYMX_DIGEST").is_ok() {
+            // per case: every path's decisions and per-step behaviour notes (the miniwasm build must produce the same)
+            let mut d = String::new();
+            for r in &runs {
+                d.push_str(&format!("{:?}", r.decisions));
+                for n in r.notes.iter().filter(|n| n.starts_with('m') || n.starts_with("outcome")) {
+                    d.push_str(n);
+                    d.push('\n');
+                }
+            }
+            digests.insert(c.name.clone(), Value::String(d));
+        }
         for (pi, r) in runs.iter().enumerate() {
             n_paths += 1;
             if let Err(e) = &r.value {
@@ -467,7 +480,9 @@ pub fn run_suite(suite: &str, props: &BTreeSet<String>, tier: &str, seed: u64, s
         }
     }
     let st = symcore::stats();
+    let want_digest = std::env::var("SYMX_DIGEST").is_ok();
     json!({
+        "digests": if want_digest { Value::Object(digests) } else { Value::Null },
         "suite": suite, "tier": tier, "seed": seed, "shard": format!("{si}/{sn}"), "miniwasm": miniwasm,
         "props": props.iter().collect::<Vec<_>>(),
         "total_cases": total_cases, "cases": n_cases, "paths": n_paths, "outcomes": outcomes,
